@@ -123,13 +123,14 @@ Definition env_of (sc : scn) (ref_const : refs) (k : N) : env :=
    sub-class: key / Byron inputs and outputs, nothing else in the body or the witness set (a required signer is also a body
    field: outside).  The
    interpretation follows the harness: UTxO id i is outpoint (hash(i), i mod 7); a kind-0 UTxO is owned by key
-   kh(id mod 12); a kind-1 UTxO by Byron address number id mod 6 (numbers 0..2 mainnet: attributes a0, one byte;
-   3..5 testnet magic 1097911063: attributes a1 02 45 1a 41 70 cb 17, eight bytes) *)
+   kh(id mod 12); a kind-1 UTxO by Byron address number id mod 9 (numbers 0..2 mainnet Icarus: attributes a0, one byte;
+   3..5 testnet magic 1097911063: attributes a1 02 45 1a 41 70 cb 17, eight bytes; 6..8 Daedalus addresses with the
+   derivation-path payload: 34 bytes) *)
 Definition interp_of (sc : scn) : FeeConcrete.interp :=
   FeeConcrete.mkInterp
     (fun id => id mod 7)
-    (fun id => if u_kind (lookup_uinfo sc id) =? 1 then FeeConcrete.IByron (id mod 6) else FeeConcrete.IKey (id mod 12))
-    [(0, 1); (1, 1); (2, 1); (3, 8); (4, 8); (5, 8)]
+    (fun id => if u_kind (lookup_uinfo sc id) =? 1 then FeeConcrete.IByron (id mod 9) else FeeConcrete.IKey (id mod 12))
+    [(0, 1); (1, 1); (2, 1); (3, 8); (4, 8); (5, 8); (6, 34); (7, 34); (8, 34)]
     (fun _ => 0) (fun _ => MinAda.OutputSize.DNone) (fun _ => None).
 
 Definition state_plain (sc : scn) (s : state) : bool :=
